@@ -178,6 +178,118 @@ type robustCfg struct {
 	api    string
 }
 
+// typedInputs: a stream of PAT, PMT, SDT, NIT, EIT and TOT sections that carry descriptors of every supported kind, and its
+// mutations: every descriptor_length / loop length / section_length set to {0, 1, true-1, true+1, max}, with the CRC_32 left
+// stale (the section body is parsed before the CRC is checked) and with the CRC_32 recomputed
+func typedInputs(rg *rng, level int) []robustInput {
+	var ins []robustInput
+	type placed struct {
+		start int // stream offset of the unit's first packet
+		unit  []byte
+		secAt int // offset of the section inside the unit
+		kind  string
+	}
+	var stream []byte
+	var units []placed
+	cyc := rg.intn(len(descKinds))
+	nextDescs := func(n int) []*astits.Descriptor { // every supported descriptor kind appears, in turn
+		var ds []*astits.Descriptor
+		for i := 0; i < n; i++ {
+			d := randDescriptor(rg, descKinds[cyc%len(descKinds)], rg.pick(12, 30))
+			cyc++
+			setLength(d, "correct", rg)
+			ds = append(ds, d)
+		}
+		return ds
+	}
+	add := func(k string, pid int) {
+		m := randTable(rg, k, rg.rangeInt(1, 3), 0)
+		switch k {
+		case "pmt":
+			m.PMT.ProgramDescriptors = nextDescs(2)
+			for _, e := range m.PMT.ElementaryStreams {
+				e.ElementaryStreamDescriptors = nextDescs(2)
+			}
+		case "sdt":
+			for _, e := range m.SDT.Services {
+				e.Descriptors = nextDescs(2)
+			}
+		case "nit":
+			m.NIT.NetworkDescriptors = nextDescs(2)
+			for _, e := range m.NIT.TransportStreams {
+				e.TransportDescriptors = nextDescs(1)
+			}
+		case "eit":
+			for _, e := range m.EIT.Events {
+				e.Descriptors = nextDescs(2)
+			}
+		case "tot":
+			m.TOT.Descriptors = nextDescs(3)
+		}
+		if k == "pat" {
+			m.PAT.Programs = append([]*astits.PATProgram{{ProgramNumber: 1, ProgramMapID: 0x1000}}, m.PAT.Programs...)
+		}
+		sec := twinSection(m)
+		if len(sec) > 900 {
+			return
+		}
+		unit := append([]byte{0}, sec...)
+		units = append(units, placed{len(stream), unit, 1, k})
+		stream = append(stream, packetise(pid, unit, rg.intn(16))...)
+	}
+	add("pat", 0)
+	for rep := 0; rep < 3; rep++ {
+		add("pmt", 0x1000)
+		add("sdt", 0x11)
+		add("nit", 0x10)
+		add("eit", 0x12)
+		add("tot", 0x14)
+	}
+	ins = append(ins, robustInput{"typed-wellformed", stream})
+	at := func(u placed, off int) int { return u.start + (off/184)*188 + 4 + off%184 }
+	for _, u := range units {
+		sec := u.unit[u.secAt:]
+		for _, mk := range sectionMarks(sec) {
+			get := func(b []byte) int {
+				if mk.Bits == 8 {
+					return int(b[mk.Off])
+				}
+				return int(b[mk.Off]&0xf)<<8 | int(b[mk.Off+1])
+			}
+			tv := get(sec)
+			max := 1<<uint(mk.Bits) - 1
+			for _, v := range []int{0, 1, tv - 1, tv + 1, max} {
+				if v < 0 || v > max || v == tv {
+					continue
+				}
+				for _, fix := range []bool{false, true} {
+					ms := append([]byte(nil), sec...)
+					if mk.Bits == 8 {
+						ms[mk.Off] = byte(v)
+					} else {
+						ms[mk.Off] = ms[mk.Off]&0xf0 | byte(v>>8)
+						ms[mk.Off+1] = byte(v)
+					}
+					if fix && mk.Name != "section_length" {
+						c := crc32mpeg(ms[:len(ms)-4])
+						copy(ms[len(ms)-4:], []byte{byte(c >> 24), byte(c >> 16), byte(c >> 8), byte(c)})
+					}
+					m := append([]byte(nil), stream...)
+					for i := range ms {
+						m[at(u, u.secAt+i)] = ms[i]
+					}
+					name := fmt.Sprintf("typed-%s-%s=%d(was %d)", u.kind, mk.Name, v, tv)
+					if fix {
+						name += "+crc"
+					}
+					ins = append(ins, robustInput{name, m})
+				}
+			}
+		}
+	}
+	return ins
+}
+
 func runRobust(sc *streamScenario, rec *recorder, level int) {
 	bs := buildStream(sc.Units, sc.Pkts, sc.PMTPIDs, sc.Seed, sc.Complete)
 	rg := newRng(sc.Seed ^ 0x3030)
@@ -190,11 +302,15 @@ func runRobust(sc *streamScenario, rec *recorder, level int) {
 			}
 		}
 	}
-	for _, in := range robustInputs(bs, rg, level) {
+	inputs := robustInputs(bs, rg, level)
+	if sc.Run.API != "notyped" {
+		inputs = append(inputs, typedInputs(rg, level)...)
+	}
+	for _, in := range inputs {
 		cfgs := all
-		if level < 2 && in.name != "empty" && in.name != "wellformed" {
+		if level < 2 && in.name != "empty" && in.name != "wellformed" && in.name != "typed-wellformed" {
 			cfgs = nil
-			for k := 0; k < 5; k++ {
+			for k := 0; k < 3; k++ {
 				cfgs = append(cfgs, all[rg.intn(len(all))])
 			}
 		}
